@@ -23,7 +23,20 @@ P = {'id': 'C10',
               'valvec32_clear_drops_each_once',
               'valvec32_capacity_agrees',
               'valvec32_set_leak_refuted',
-              'valvec32_extend_truncation_refuted'],
+              'valvec32_extend_truncation_refuted',
+              'strvec_consts_ok',
+              'strvec_entry_roundtrip',
+              'strvec_refines_spec',
+              'strvec_get_pushes',
+              'strvec_push_refused_iff',
+              'strvec_sort_is_sorted_perm',
+              'strvec_sort_by_is_sorted_perm',
+              'strvec_sort_by_length_is_sorted_perm',
+              'strvec_long_string_refuted',
+              'fixedlen_refines_list',
+              'fixedlen_get_pushes',
+              'fixedlen_push_refused_iff'],
+ 'consts': True,
  'trusted': ['modelled (M+S), memory = map slot -> option element (None = uninitialised / moved out; reading, moving out or dropping a None slot is the '
              'outcome UB): src/containers/specialized/circular_queue.rs AutoGrowCircularQueue (ensure_power_of_two, with_capacity, reserve, grow_to incl. '
              'in-place realloc vs. linearising two-part copy, push_back + slow path, pop_front, front, back, clear, push_bulk, pop_bulk, Clone, Drop) and '
